@@ -810,10 +810,13 @@ def worker(bdir, tools, lo, hi, tier):
     b = build.Build("asan", bdir)
     box = Box(b, tools)
     for i in range(lo, hi):
+        t = time.time()
         try:
             run_case(res, box, i, tier)
         except core.Inconclusive as e:
             res.inconclusive.append("case %d: %s" % (i, e))
+        if time.time() - t > 20:
+            res.counters.setdefault("slow_cases", []).append("case %d: %.0fs" % (i, time.time() - t))
     return res
 
 
